@@ -126,6 +126,22 @@ func vs_validSimple(s *spec.SimpleSchema) bool {
 	return s.Items != nil && vs_validSimple(&s.Items.SimpleSchema)
 }
 
+// vs_nonNilPtr: a schema-like value handed over as interface{} is not a typed nil pointer (a nil
+// *spec.Schema boxed in an interface is not == nil, and the type-name helpers dereference it).
+func vs_nonNilPtr(item interface{}) bool {
+	switch s := item.(type) {
+	case *spec.Schema:
+		return s != nil
+	case *spec.SchemaProps:
+		return s != nil
+	case *spec.SimpleSchema:
+		return s != nil
+	case *spec.Refable:
+		return s != nil
+	}
+	return true
+}
+
 // vs_nonNilItem: a schema-like value handed over as interface{} is not a nil pointer, and a
 // simple schema among them is valid in the sense above.
 func vs_nonNilItem(item interface{}) bool {
